@@ -7,10 +7,15 @@
             oracles: type 1 is the exact inverse (K apply(e_i) = e_i), type 2 solves the block
             upper-triangular system, sub-blocks + gather/scatter reassemble K.
   pattern : pmask_pattern strings through the property-tree constructor, each under a timeout.
-  cpr     : x = S f + Scatter P (Fpp (f - A S f)), pressure matrix = first-row-of-inverse-diagonal-
-            block weighting; scalar input with block_size b vs b x b block-valued input; partial
-            update with an unchanged matrix.
-  deflate : projection leaves a residual orthogonal to the deflation vectors; full solve.
+  cpr     : operator on all unit vectors + pressure matrix vs the extracted Cpr.v set-up (scalar input,
+            block-valued input, active_rows < n, unsorted rows, partial_update); oracles:
+            x = S f + Scatter P (Fpp (f - A S f)), pressure matrix = first-row-of-inverse-diagonal-
+            block weighting of the active part; scalar input with block_size b vs b x b block-valued
+            input; partial update with an unchanged matrix.
+  cprdrs  : the same for cpr_drs (dynamic row sum weights; dyadic eps_dd / eps_ps / weights) vs CprDrs.v
+            and vs an independent evaluation of the rule (drs_spec).
+  deflate : init() + project() / apply() vs the model (E^-1 through Inverse.v); projection leaves a
+            residual orthogonal to the deflation vectors; full solve.
 """
 import random, subprocess, os
 from fractions import Fraction as F
@@ -49,6 +54,34 @@ def permute_sym(rows, p):
     return [sorted((inv[c], v) for c, v in rows[p[i]]) for i in range(len(rows))]
 
 
+def spec_mask(spec, n):
+    kind, arg = spec.split(":", 1)
+    if kind == "il": k = int(arg); return [i % k == k - 1 for i in range(n)]
+    if kind == "ct": k = int(arg); return [i >= n - k for i in range(n)]
+    if kind == "hd": k = int(arg); return [i < k for i in range(n)]
+    if kind == "list": return [ch == "1" for ch in arg]
+    if arg[0] == "%":
+        st, sd = [int(x) for x in arg[1:].split(":")]; return [i >= st and (i - st) % sd == 0 for i in range(n)]
+    if arg[0] == "<": return [i < int(arg[1:]) for i in range(n)]
+    return [i >= int(arg[1:]) for i in range(n)]
+
+
+def diff_run_all(ctx, driver, lines, theorem=None):
+    """diff_run, re-running the cases left unanswered because an earlier case of the same shard killed a driver"""
+    impl = c17.run_all(ctx, ctx["cpp"][driver], lines)
+    model = c17.run_all(ctx, ctx["model"], lines)
+    account(ctx, lines, impl)
+    fails = []
+    for l in lines:
+        cid, op = l.split(" ", 2)[:2]
+        a, b = impl.get(cid), model.get(cid)
+        if a != b:
+            ctx["stats"]["mismatches"] += 1
+            fails.append(dict(kind="counterexample", case=l, impl=a, model=b, op=op, size=len(l),
+                              theorem=theorem or ("correspondence %s: implementation vs Coq model (%s)" % (driver, op))))
+    return fails, impl, model
+
+
 def schur_cases(tier, seed):
     r = random.Random(seed * 1000 + 181)
     N = 24 if tier == "quick" else 150
@@ -76,6 +109,9 @@ def schur_cases(tier, seed):
                 specs = ["list:" + "".join("1" if p[i] >= nu else "0" for i in range(n))]
         if r.random() < 0.4: rows = gen.shuffle_rows(r, rows)
         A = fmt_crs(len(rows), len(rows), rows)
+        # the mask must split the unknowns into two non-empty sets (a mask that marks every unknown, e.g.
+        # "%0:1", leaves an empty Kuu: outside the domain of the composite -- the constructor segfaults)
+        specs = [sp for sp in specs if 0 < sum(spec_mask(sp, len(rows))) < len(rows)]
         for spec in specs:
             for typ in (1, 2):
                 for adj in (0, 1, 2):
@@ -135,11 +171,12 @@ def cprdrs_cases(tier, seed):
         act = 0 if (nb < 2 or r.random() < 0.6) else b * r.randint(1, nb - 1)
         N_act = act if act else n
         w = [] if r.random() < 0.5 else [F(r.randint(-4, 12), 4) for _ in range(N_act)]
-        A = fmt_crs(n, n, rows if it % 4 else gen.shuffle_rows(r, rows))
-        pay = "%d %d %s %s %s %s" % (b, act, fmt_q(eps_dd), fmt_q(eps_ps), fmt_vec(w), A)
-        kinds = ["scalar"] + (["block"] if act == 0 else []) + (["update"] if it % 5 == 0 else [])
+        pre = "%d %d %s %s %s" % (b, act, fmt_q(eps_dd), fmt_q(eps_ps), fmt_vec(w))
+        A = fmt_crs(n, n, rows); As = fmt_crs(n, n, rows if it % 4 else gen.shuffle_rows(r, rows))   # scalar input also unsorted
+        kinds = ["scalar", "block"] + (["update"] if it % 5 == 0 else [])
         for kind in kinds:
-            out.append(dict(id="r%d" % len(out), line="cprdrs %s %s" % (kind, pay), kind=kind, b=b, active=act, eps_dd=eps_dd, eps_ps=eps_ps, w=w, rows=rows, n=n, grp=it))
+            out.append(dict(id="r%d" % len(out), line="cprdrs %s %s %s" % (kind, pre, A if kind == "block" else As), kind=kind, b=b, active=act, eps_dd=eps_dd, eps_ps=eps_ps, w=w, rows=rows, n=n, grp=it,
+                            coupled=bool(act) and any(c >= act for i in range(act) for c, _ in rows[i])))
     return out
 
 
@@ -254,7 +291,9 @@ def classify(fail):
     if fail.get("group") == "pattern-hang":
         return dict(site="schur_pressure_correction::params pmask_pattern", start_digits=m.get("start_digits"), stride_parsed=0)
     if fail.get("group") == "cpr-block-active":
-        return dict(site="cpr::init block value type", active_rows_lt_n=True, active_row_coupled_to_inactive_column=m.get("coupled"), what=m.get("what"))
+        return dict(site="cpr::init block value type", active_rows_lt_n=True, pressure_matrix_illformed=True, active_row_coupled_to_inactive_column=m.get("coupled"), what=m.get("what"))
+    if fail.get("group") == "cprdrs-block-active":
+        return dict(site="cpr_drs::init block value type", active_rows_lt_n=True, pressure_matrix_illformed=True, active_row_coupled_to_inactive_column=m.get("coupled"), what=m.get("what"))
     if fail.get("group") == "cprdrs-update":
         return dict(site="cpr_drs::first_scalar_pass get_app=false", crash=m.get("crash"))
     return {}
@@ -265,12 +304,23 @@ def run(ctx, cases_override=None):
     fails = []
     if cases_override:
         for l in cases_override:
-            op = l.split()[1]
+            toks = l.split(); op = toks[1]
             if op == "schur":
-                toks = l.split()
                 c = dict(id=toks[0], line=l.split(" ", 1)[1], typ=int(toks[2]), adj=int(toks[3]), approx=int(toks[4]), spec=toks[6], crs=" ".join(toks[7:]), rows=None)
                 fails += run_schur(ctx, [c])
             elif op == "schur_pattern": fails += run_patterns(ctx, [(toks_pat(l))])
+            elif op == "cpr":
+                fails += run_cpr(ctx, [dict(id=toks[0], line=l.split(" ", 1)[1], kind=toks[2], b=int(toks[3]), active=int(toks[4]), crs=" ".join(toks[5:]), grp=None)])
+            elif op == "cprdrs":
+                nw = int(toks[7]); w = [F(x) for x in toks[8:8 + nw]]; crs = " ".join(toks[8 + nw:])
+                rows = [sorted((cc, F(v)) for cc, v in rw) for rw in crs_rows(crs)]
+                fails += run_cprdrs(ctx, [dict(id=toks[0], line=l.split(" ", 1)[1], kind=toks[2], b=int(toks[3]), active=int(toks[4]), eps_dd=F(toks[5]), eps_ps=F(toks[6]),
+                                               w=w, rows=rows, n=len(rows), grp=0)])
+            elif op == "deflate":
+                k = crs_len(toks, 3); nv = int(toks[k]); k += 1
+                for _ in range(nv): k += 1 + int(toks[k])
+                nb = int(toks[k]); b = [F(x) for x in toks[k + 1:k + 1 + nb]]; k += 1 + nb
+                fails += run_deflate(ctx, [dict(id=toks[0], line=l.split(" ", 1)[1], what=toks[2], pay=" ".join(toks[3:k]), crs=" ".join(toks[3:crs_len(toks, 3)]), b=b)])
             else:
                 f, _, _ = diff_run(ctx, "composite", [l]); fails += f
         return fails
@@ -280,6 +330,12 @@ def run(ctx, cases_override=None):
     fails += run_cprdrs(ctx, cprdrs_cases(tier, seed))
     fails += run_deflate(ctx, deflate_cases(tier, seed))
     return fails
+
+def crs_len(toks, k):
+    """index just after the crs tokens that start at toks[k]"""
+    n = int(toks[k]); k += 2
+    for _ in range(n): k += 1 + 2 * int(toks[k])
+    return k
 
 def toks_pat(l):
     t = l.split(); return (t[2], int(t[3]))
@@ -295,7 +351,7 @@ def crs_rows(crs_tokens):
 
 def run_schur(ctx, cs):
     lines = ["%s %s" % (c["id"], c["line"]) for c in cs]
-    f, impl, model = diff_run(ctx, "composite", lines, theorem="correspondence drv_composite (schur_pressure_correction with exact inner solvers) vs Composite.v (schur_apply, schur_op, sub_block, kpp_adjust1)")
+    f, impl, model = diff_run_all(ctx, "composite", lines, theorem="correspondence drv_composite (schur_pressure_correction with exact inner solvers) vs Composite.v (schur_apply, schur_op, sub_block, kpp_adjust1)")
     fails = list(f)
     ol = []; byid = {}; meta = {}
     r = random.Random(ctx["seed"] + 5)
@@ -367,7 +423,7 @@ def run_patterns(ctx, pats):
 
 def run_cpr(ctx, cs):
     lines = ["%s %s" % (c["id"], c["line"]) for c in cs]
-    f, impl, _ = diff_run(ctx, "composite", lines, theorem="correspondence drv_composite (preconditioner::cpr with a recording exact pressure stage) vs Cpr.v (cpr_setup / cprb_setup / cpr_partial_update) + Composite.v cpr_apply")
+    f, impl, _ = diff_run_all(ctx, "composite", lines, theorem="correspondence drv_composite (preconditioner::cpr with a recording exact pressure stage) vs Cpr.v (cpr_setup / cprb_setup / cpr_partial_update) + Composite.v cpr_apply")
     fails = list(f); ol = []; byid = {}
     grp = {}
     for c in cs:
@@ -379,10 +435,12 @@ def run_cpr(ctx, cs):
                 fails.append(dict(kind="counterexample", case=line, impl=o[:300], model="same ...", op="cpr", size=len(line),
                                   theorem="C18: a partial update of CPR with an unchanged matrix leaves its action unchanged"))
             continue
-        if not o.startswith("{"):
+        if not o.startswith("{") or "BADCRS" in o:
+            # no operator, or the matrix handed to the pressure stage is ill-formed (column index out of
+            # range -> exception of the recording preconditioner; nnz field inconsistent with ptr -> BADCRS)
             x = dict(kind="counterexample", case=line, impl=o[:300], model=None, op="cpr", size=len(line), theorem="C18: cpr construction/apply failed")
             if c["kind"] == "block_dummy" and c.get("active"):
-                x["group"] = "cpr-block-active"; x["meta"] = dict(coupled=c.get("coupled"), what=" ".join(o.split()[:3]))
+                x["group"] = "cpr-block-active"; x["meta"] = dict(coupled=c.get("coupled"), what=("BADCRS " + o.split("BADCRS")[1].split()[0]) if "BADCRS" in o else " ".join(o.split()[:3]))
                 x["theorem"] = "C18: CPR on scalar input with block_size b and on b x b block input give the same operator and pressure matrix (active_rows < n)"
             fails.append(x); continue
         dense, app = split_top(o)
@@ -401,8 +459,8 @@ def run_cpr(ctx, cs):
 def run_cprdrs(ctx, cs):
     lines = ["%s %s" % (c["id"], c["line"]) for c in cs]
     upd = [l for l, c in zip(lines, cs) if c["kind"] == "update"]
-    f, impl, _ = diff_run(ctx, "composite", [l for l in lines if l not in upd],
-                          theorem="correspondence drv_composite (preconditioner::cpr_drs with a recording exact pressure stage) vs CprDrs.v (drs_make / drsb_make) + Composite.v cpr_apply")
+    f, impl, _ = diff_run_all(ctx, "composite", [l for l in lines if l not in upd],
+                              theorem="correspondence drv_composite (preconditioner::cpr_drs with a recording exact pressure stage) vs CprDrs.v (drs_make / drsb_make) + Composite.v cpr_apply")
     fails = list(f)
     # partial_update: each case in its own process (the unchanged code dereferences a null pointer)
     for l in upd:
@@ -413,6 +471,7 @@ def run_cprdrs(ctx, cs):
         o = impl.get(c["id"], "")
         ctx["stats"]["oracle_checks"] += 1
         if c["kind"] == "update":
+            if o.startswith("EXC runtime_error singular_pressure_matrix") and drs_spec(c)[1] is None: continue   # no preconditioner to update
             if not o.startswith("same "):
                 x = dict(kind="counterexample", case=line, impl=o[:300], model="same ...", op="cprdrs", size=len(line),
                          theorem="C18: a partial update of CPR (cpr_drs) with an unchanged matrix leaves its action unchanged")
@@ -421,8 +480,12 @@ def run_cprdrs(ctx, cs):
             continue
         spec = drs_spec(c)
         if o.startswith("EXC runtime_error singular_pressure_matrix") and spec[1] is None: continue
-        if not o.startswith("{"):
-            fails.append(dict(kind="counterexample", case=line, impl=o[:300], model=None, op="cprdrs", size=len(line), theorem="C18: cpr_drs construction/apply failed")); continue
+        if not o.startswith("{") or "BADCRS" in o:
+            x = dict(kind="counterexample", case=line, impl=o[:300], model=None, op="cprdrs", size=len(line), theorem="C18: cpr_drs construction/apply failed")
+            if c["kind"] == "block" and c["active"]:
+                x["group"] = "cprdrs-block-active"; x["meta"] = dict(coupled=c.get("coupled"), what=("BADCRS " + o.split("BADCRS")[1].split()[0]) if "BADCRS" in o else " ".join(o.split()[:3]))
+                x["theorem"] = "C18: cpr_drs on scalar input with block_size b and on b x b block input give the same operator and pressure matrix (active_rows < n)"
+            fails.append(x); continue
         dense, app = split_top(o)
         grp.setdefault(c["grp"], {})[c["kind"]] = (dense, app, line)
         exp_app, exp_op = spec
@@ -445,7 +508,7 @@ def run_cprdrs(ctx, cs):
 def run_deflate(ctx, cs):
     lines = ["%s %s" % (c["id"], c["line"]) for c in cs]
     proj = [l for l, c in zip(lines, cs) if c["what"] in ("project", "apply")]
-    f, impl, _ = diff_run(ctx, "composite", proj, theorem="correspondence drv_composite (deflated_solver::init + project / apply) vs Composite.v deflate_E, deflate_project + Inverse.v inverse (CompositeProofs5.deflate_init)")
+    f, impl, _ = diff_run_all(ctx, "composite", proj, theorem="correspondence drv_composite (deflated_solver::init + project / apply) vs Composite.v deflate_E, deflate_project + Inverse.v inverse (CompositeProofs5.deflate_init)")
     fails = list(f)
     rest = [l for l, c in zip(lines, cs) if c["what"] not in ("project", "apply")]
     impl2 = c17.run_all(ctx, ctx["cpp"]["composite"], rest); account(ctx, rest, impl2); impl.update(impl2)
